@@ -415,8 +415,12 @@ pub struct QueryState<'a> {
 
 impl Drop for QueryState<'_> {
     fn drop(&mut self) {
-        // FIXME: This may be wrong if the iterator is not fully consumed, but from testing it
-        // seems fine. Is this really ok?
+        // discard the choice points a partially consumed query still has above
+        // its stub, then pop the stub itself.
+        if self.machine.machine_st.b > self.stub_b {
+            self.machine.machine_st.b = self.stub_b;
+        }
+
         self.machine.trust_me();
     }
 }
